@@ -185,6 +185,71 @@ def work(chunk):
     return acc
 
 
+# ---------------------------------------------------------------------------------------------
+# rule, difference quotient and Richardson stage must belong to the SAME configuration also when method / order / n
+# were assigned after construction: polynomials of degree < n + order stay exact, and the value equals that of an
+# object built with the final configuration
+
+def assigned_cases():
+    out = []
+    real = ['central', 'forward', 'backward']
+    for n in (1, 2, 3):
+        for m0 in real:
+            for m1 in real:
+                if m0 != m1:
+                    out.append(((m0, n, 2), (m1, n, 2)))
+        out.append((('central', n, 2), ('central', n, 4)))
+        out.append((('forward', n, 3), ('forward', n, 1)))
+        out.append((('complex', n, 2), ('complex', n, 6)))
+        out.append((('complex', n, 6), ('complex', n, 2)))
+        out.append((('central', n, 2), ('central', n + 1, 2)))
+    return out
+
+
+def work_assigned(chunk):
+    import warnings
+    import numdifftools as nd
+    acc = fw.Acc()
+    for cfg0, cfg1 in chunk:
+        m1, n1, o1 = cfg1
+        mo = max((o1 // 2) * 2, 2) if m1 == 'central' else o1
+        prob = None
+        for deg in range(0, n1 + o1):
+            coef = 1.0 + 0.25 * deg
+
+            def p(x, deg=deg, coef=coef):
+                return coef * (x - 0.25) ** deg
+            exact = coef * math.factorial(deg) / math.factorial(deg - n1) * (0.75 - 0.25) ** (deg - n1) if deg >= n1 else 0.0
+            vals = []
+            for mode in ('assigned', 'fresh'):
+                fw.fresh_library_state()
+                with warnings.catch_warnings():
+                    warnings.simplefilter('ignore')
+                    try:
+                        if mode == 'fresh':
+                            d = nd.Derivative(p, method=m1, n=n1, order=o1)
+                        else:
+                            d = nd.Derivative(p, method=cfg0[0], n=cfg0[1], order=cfg0[2])
+                            if cfg0[0] != m1:
+                                d.method = m1
+                            if cfg0[2] != o1:
+                                d.order = o1
+                            if cfg0[1] != n1:
+                                d.n = n1
+                        vals.append(float(d(0.75)))
+                    except Exception as e:      # noqa: BLE001
+                        vals.append('raised %s' % type(e).__name__)
+            if vals[0] != vals[1] and prob is None:
+                prob = ('degree %d: after assignment %r, built directly %r (exact %r)' % (deg, vals[0], vals[1], exact))
+        acc.case(('assigned', cfg0, cfg1), nontrivial=True, cell='assigned/%s' % m1, outcome=prob is None)
+        if prob:
+            acc.violation('C06:%s:assigned-configuration' % m1, dict(kind='assigned', built=list(cfg0), assigned=list(cfg1)),
+                          'Derivative built with (method, n, order) = %r, then assigned %r, on the monomials of degree < n + order: %s'
+                          % (cfg0, cfg1, prob), rank=n1)
+    fw.fresh_library_state()
+    return acc
+
+
 def run(ctx):
     if ctx.quick:
         ratios, nmax = RATIOS_Q, 8
@@ -193,9 +258,10 @@ def run(ctx):
     cases = [(m, n, o, r) for m in METHODS for n in range(1, nmax + 1)
              for o in range(1, nmax + 1) for r in ratios]
     acc = ctx.pmap(work, cases, chunk=20)
+    acc.merge(ctx.pmap(work_assigned, assigned_cases(), chunk=3))
     for c in cases[:2] + cases[len(cases) // 2: len(cases) // 2 + 2] + cases[-2:]:
         acc.sample(dict(method=c[0], n=c[1], order=c[2], step_ratio=c[3]))
-    req = ['%s/n%%8=%d' % (m, k) for m in METHODS for k in range(8)]
+    req = ['%s/n%%8=%d' % (m, k) for m in METHODS for k in range(8)] + ['assigned/%s' % m for m in METHODS]
     rule = ('full product methods x n 1..%d x order 1..%d x %d step ratios; for each, every monomial '
             'degree 0..n+method_order+4*richardson_step is pushed through the real LogRule.diff in exact '
             'Q(sqrt2,i) arithmetic and combined with the exactly converted float weights; moment '
@@ -208,5 +274,9 @@ def run(ctx):
 
 
 def replay(case):
+    if case.get('kind') == 'assigned':
+        a = work_assigned([(tuple(case['built']), tuple(case['assigned']))])
+        bad = [r['detail'] for k, (n, recs) in a.viol.items() for r in recs]
+        return not bad, '%r -> %s' % (case, bad or 'same values as an object built directly')
     res = check_config(case['method'], case['n'], case['order'], case['ratio'])
     return not res['problems'], 'case=%r -> %r' % (case, {k: res[k] for k in ('problems', 'singular', 'kappa', 'L', 'mo', 'rs')})
